@@ -235,7 +235,7 @@ pub fn h_c17_step<const N: usize, S: Nd>(nd: &mut S, tag: u8) -> Out {
     match r {
         R::Discarded(n) => {
             // a start sequence was completed by this byte: everything before it is reported
-            check!(n == since + 1 - 8, "C17: DiscardedBytes(n) differs from the bytes between the last boundary and the start sequence");
+            check!(n == since + 1 - 8, "C17/C08: DiscardedBytes(n) differs from the bytes between the last boundary and the start sequence");
             check!(n > 0, "C17: DiscardedBytes(0) reported");
             check!(s2.tag == T_NORMAL && s2.raw_msg_len == 8, "C17: after a start sequence exactly its 8 bytes are in flight");
             check!(p.s.tag == T_LOOK || p.s.tag == T_ESCPAY || p.s.tag == T_DONE, "C17: DiscardedBytes from an unexpected state");
@@ -307,7 +307,10 @@ pub fn h_c14_step<const N: usize, S: Nd>(nd: &mut S, tag: u8) -> Out {
     let s2 = d.verif_state();
     let bl2 = d.verif_buf().len();
     match r {
-        R::InvalidEsc(_) | R::Oom | R::InvalidMsg { .. } => {
+        R::Oom => {
+            check!(is_fresh(&s2, bl2), "C14/C16: state after out-of-memory differs from a new decoder (not immediately ready for the next frame)");
+        }
+        R::InvalidEsc(_) | R::InvalidMsg { .. } => {
             check!(is_fresh(&s2, bl2), "C14: state after an error differs from a new decoder (withheld zeros / counters / buffer leak)");
         }
         R::Delivered(_) => {
